@@ -362,8 +362,54 @@ func planC12(tier string, root *simcore.RNG) *plan {
 		}
 		pl.scenarios = append(pl.scenarios, sc)
 	}
+	// part 2b: histories that alternate resolutions of one renderer kind (worker
+	// pools, caches and buffers sized by an earlier render)
+	mixed := 4
+	if thorough {
+		mixed = 60
+	}
+	for h := 0; h < mixed; h++ {
+		r := root.Fork()
+		kind := []string{"mcu", "mcu", "mco", "msq", "msu", "dc2"}[h%6]
+		var block []Job
+		for k := 0; k < 2+r.Intn(3); k++ {
+			cells := pick(r, []int{4 + r.Intn(5), 14 + r.Intn(12), 30 + r.Intn(16)})
+			if k == 0 {
+				cells = 4 + r.Intn(4)
+			}
+			if k == 1 {
+				cells = 24 + r.Intn(20)
+			}
+			j := Job{Kind: kind, Cells: cells}
+			if kind == "mcu" || kind == "mco" {
+				j.Model = pick(r, model3Names)
+				j.Sink = pick(r, []string{"tri", "stl", "3mf"})
+			} else {
+				j.Model = pick(r, model2Names)
+				j.Sink = pick(r, []string{"dxf", "svg"})
+			}
+			block = append(block, j)
+		}
+		nrep := 4
+		if thorough {
+			nrep = 4 + r.Intn(8)
+		}
+		sc := &Scenario{Prop: "C12", Family: "census", Seed: r.Uint64(), Census: true, Env: genEnv(r),
+			Sched: Sched{Policy: pick(r, []string{"fifo", "uniform"}), Seed: r.Uint64()},
+			Sites: map[string]uint32{"close": 1, "write": 64, "prod": 16}, Note: fmt.Sprintf("mixed-resolution period=%d reps=%d", len(block), nrep)}
+		jid := 0
+		for rep := 0; rep < nrep; rep++ {
+			for _, b := range block {
+				jid++
+				b.ID = jid
+				sc.Groups = append(sc.Groups, []Job{b})
+			}
+		}
+		pl.scenarios = append(pl.scenarios, sc)
+	}
+	histories += mixed
 	pl.extra = map[string]any{"fault_points_enumerated": faultPoints, "render_histories": histories}
-	pl.rule = "part 1: for every render-to-file entry (ToSTL/To3MF/ToDXF/ToSVG) x renderer (scripted; uniform and octree marching cubes; uniform/quadtree marching squares; 2D dual contouring) x fault (create fails: missing directory, path is a directory; /dev/full; the file is unlinked right after it was created; the process is out of file descriptors (EMFILE); RLIMIT_FSIZE budget n for every 4096-byte flush index +-1 byte, the header offsets 0/1/83/84/85, size-1/-84/-85, and the unreached control budget; thorough adds every byte offset for small files) x schedule (fifo, uniform, starve(consumer), starve(renderer)); oracle = the call returns (simulator deadlock verdict otherwise). part 2: histories that repeat a block of renders R>=4 times; oracle = goroutine count at quiescence after repetition R <= after repetition 2. Non-trivial = the injected fault actually fired (or, for census episodes, a uniform render ran); distinct = (entry, fault kind, budget, policy)."
+	pl.rule = "part 1: for every render-to-file entry (ToSTL/To3MF/ToDXF/ToSVG) x renderer (scripted; uniform and octree marching cubes; uniform/quadtree marching squares; 2D dual contouring) x fault (create fails: missing directory, path is a directory; /dev/full; the file is unlinked right after it was created; the process is out of file descriptors (EMFILE); RLIMIT_FSIZE budget n for every 4096-byte flush index +-1 byte, the header offsets 0/1/83/84/85, size-1/-84/-85, and the unreached control budget; thorough adds every byte offset for small files) x schedule (fifo, uniform, starve(consumer), starve(renderer)); oracle = the call returns (simulator deadlock verdict otherwise). part 2: histories that repeat a block of renders (all sinks and renderer families, failing renders included; or one renderer kind at alternating coarse and fine resolutions) R>=4 times; oracle = goroutine count at quiescence after repetition R <= after repetition 2. Non-trivial = the injected fault actually fired (or, for census episodes, a uniform render ran); distinct = (entry, fault kind, budget, policy)."
 	pl.nontriv = func(o *runOut) (bool, string) {
 		if o.res == nil {
 			return false, ""
